@@ -556,6 +556,56 @@ impl Prop for C02 {
             let same = rd_felts(&b) == rd_felts(&s.inputs_bytes) && b.len() == s.inputs_bytes.len() && b == s.inputs_bytes;
             try_delivery(&mut out, "stmt-input-bytes", format!("{k}"), &s.info_bytes, &b, &s.outputs_bytes, &s.proof_bytes, !same);
         }
+        // crafted encodings of the outputs that the constructor would refuse (short stack,
+        // inconsistent overflow-address count, non-canonical element)
+        {
+            let enc = |st: &[u64], ad: &[u64]| -> Vec<u8> {
+                let mut b = vec![];
+                b.extend_from_slice(&(st.len() as u32).to_le_bytes());
+                for x in st {
+                    b.extend_from_slice(&x.to_le_bytes());
+                }
+                b.extend_from_slice(&(ad.len() as u32).to_le_bytes());
+                for x in ad {
+                    b.extend_from_slice(&x.to_le_bytes());
+                }
+                b
+            };
+            let top: Vec<u64> = ostack.iter().take(16).cloned().collect();
+            let differs_after = |k: usize| top.iter().skip(k).any(|x| *x % P != 0) || ostack.len() > 16;
+            let mut crafted: Vec<(String, Vec<u8>, bool)> = vec![];
+            for k in [0usize, 1, 5, 15] {
+                // a stack cut to k elements denotes the same value only if everything below is zero
+                crafted.push((format!("short-{k}"), enc(&top[..k.min(top.len())], &[]), differs_after(k)));
+            }
+            let mut st17 = top.clone();
+            st17.push(nextval(0));
+            crafted.push(("17-elements-no-addresses".into(), enc(&st17, &[]), true));
+            crafted.push(("16-elements-3-addresses".into(), enc(&top, &[0, 5, 9]), true));
+            let mut nc = top.clone();
+            // the same field element, written non-canonically (if it fits into 64 bits)
+            let alias = (nc[3] % P).checked_add(P);
+            nc[3] = alias.unwrap_or(nc[3]);
+            if alias.is_some() {
+                crafted.push(("non-canonical-alias".into(), enc(&nc, &oaddrs), ostack.len() > 16 && false));
+            }
+            let mut big = top.clone();
+            big[2] = u64::MAX;
+            crafted.push(("element-u64-max".into(), enc(&big, &oaddrs), (u64::MAX % P) != top[2] % P));
+            for (name, bytes, changed) in crafted {
+                if name == "non-canonical-alias" {
+                    // the same statement written non-canonically: a decoder may refuse the encoding or
+                    // accept it as the alias it is; only a panic would be wrong
+                    match deliver(&s.info_bytes, &s.inputs_bytes, &bytes, &s.proof_bytes) {
+                        Err((l, m)) => out.violate(format!("C02/panic/{}/stmt-output-crafted", l), format!("non-canonical alias: {m}")),
+                        Ok(Ok(_)) => out.count("probe:alias|accepted"),
+                        Ok(Err(_)) => out.count("probe:alias|refused"),
+                    }
+                    continue;
+                }
+                try_delivery(&mut out, "stmt-output-crafted", name, &s.info_bytes, &s.inputs_bytes, &bytes, &s.proof_bytes, changed);
+            }
+        }
         // ---------------- misdelivery: fields / proof of the other session ----------------------
         if let Some(o) = &s2 {
             if o.info_bytes != s.info_bytes {
